@@ -140,7 +140,7 @@ def gen_units(rng, family):
     return units, edges, caps
 
 
-ODD_NAMES = ["", "0", " ", "a b", "{}", "%s", "None", "False", "I$", "D$", "L1$data", "${state}", "$state", "$$"]
+ODD_NAMES = ["", "0", " ", "a b", "{}", "%s", "None", "False", "I$", "D$", "L1$data", "${state}", "$state", "$$", "\u00e9x", "\u00df", "\u0130"]
 
 
 def odd_names(rng, units, caps):
@@ -214,6 +214,9 @@ def build_from_parts(rng, units, edges):
     return ProcessorDesc(inp, outp, inout, internal)
 
 
+LAST_DESC = [None]       # the description the last `build_from_loader` handed to the real loader
+
+
 def build_from_loader(rng, units, edges):
     import processor_utils
 
@@ -233,10 +236,13 @@ def build_from_loader(rng, units, edges):
     rng.shuffle(us)
     es = [[recase(units[a]["name"]), recase(units[b]["name"])] for a, b in edges]
     rng.shuffle(es)
+    desc = {"units": us, "dataPath": es}
     try:
-        return processor_utils.load_proc_desc({"units": us, "dataPath": es})
+        proc = processor_utils.load_proc_desc(json.loads(json.dumps(desc)))
     except Exception:
         return None
+    LAST_DESC[0] = desc
+    return proc
 
 
 def gen_prog(rng, incaps, thorough, dense=False, long_prog=False, serial=False):
@@ -355,7 +361,10 @@ def run_impl(proc, prog, history=()):
             pass
     try:
         with core.watchdog(TIMEOUT):
-            tbl = simulate(prog, spec)
+            arg = tuple(prog) if len(prog) % 2 else prog      # `Sequence[HwInstruction]`: list or tuple
+            # positional, mixed or keyword arguments: the documented parameter names are part of the interface
+            conv = len(prog) % 3
+            tbl = simulate(arg, spec) if conv == 0 else (simulate(arg, hw_info=spec) if conv == 1 else simulate(program=arg, hw_info=spec))
         return {"outcome": "done", "table": table_json(tbl)}
     except StallError as e:
         return {"outcome": "stall", "table": table_json(e.processor_state)}
@@ -378,10 +387,44 @@ def conflicting_pair(progj):
 def evaluate(inp: dict) -> dict:
     """implementation + driver on a protocol-form input {proc, prog}; returns the per-property records"""
     core.install_repo()
-    proc = proc_from_json(inp["proc"])
+    desc_note = None
+    if inp.get("desc") is not None:
+        # family `loader`: the processor comes from the real loader.  The simulation is judged against the processor the
+        # DESCRIPTION stands for (Lean loader model, units listed in the orders the implementation stored), not against
+        # whatever object the loader under test produced (seeded change C05-11: a loader that keeps a memory-access entry
+        # in a spelling `needs_mem` never matches makes the simulator ignore the memory port)
+        import processor_utils
+
+        proc = processor_utils.load_proc_desc(json.loads(json.dumps(inp["desc"])))
+        pj = proc_json(proc)
+        la = core.driver().ask({"op": "load", "desc": inp["desc"], "impl": {"ok": True, "proc": {"inPorts": [], "inOut": [], "outPorts": [], "internal": []}}})
+        if la["model"].get("ok"):
+            mp = la["model"]["proc"]
+            by = {u["name"]: u for k in ("inPorts", "inOut", "outPorts", "internal") for u in mp[k]}
+            cls = {u["name"]: k for k in ("inPorts", "inOut", "outPorts", "internal") for u in mp[k]}
+            names = {"in": [u["name"] for u in pj["in"]], "inout": [u["name"] for u in pj["inout"]],
+                     "out": [f["model"]["name"] for f in pj["out"]], "internal": [f["model"]["name"] for f in pj["internal"]]}
+            want = {"in": "inPorts", "inout": "inOut", "out": "outPorts", "internal": "internal"}
+            if all(n in by and cls[n] == want[k] for k, ns in names.items() for n in ns) and sum(len(v) for v in names.values()) == len(by):
+                def um(n):
+                    u = by[n]
+                    return {"name": u["name"], "width": u["width"], "caps": u["caps"], "rd": u["rd"], "wr": u["wr"], "acl": u["acl"]}
+                pj_model = {"in": [um(n) for n in names["in"]], "inout": [um(n) for n in names["inout"]],
+                            "out": [{"model": um(n), "preds": sorted(by[n]["preds"])} for n in names["out"]],
+                            "internal": [{"model": um(n), "preds": sorted(by[n]["preds"])} for n in names["internal"]]}
+                if pj_model != {**pj, "out": [{"model": f["model"], "preds": sorted(f["preds"])} for f in pj["out"]],
+                                "internal": [{"model": f["model"], "preds": sorted(f["preds"])} for f in pj["internal"]]}:
+                    desc_note = "the loaded processor differs from the description's processor (Lean loader model)"
+                pj = pj_model
+            else:
+                desc_note = "the loaded processor has other units / port classes than the description's processor"
+        else:
+            desc_note = "the Lean loader model rejects the description the implementation accepted"
+    else:
+        proc = proc_from_json(inp["proc"])
+        # the stored orders must be the ones the implementation uses: rebuild the protocol form from the object
+        pj = proc_json(proc)
     prog = prog_from_json(inp["prog"])
-    # the stored orders must be the ones the implementation uses: rebuild the protocol form from the object
-    pj = proc_json(proc)
     impl = run_impl(proc, prog, [prog_from_json(h) for h in inp.get("history", [])])
     intended = [{"srcs": i["srcs"], "dst": i["dst"], "cap": i["cap"]} for i in inp["prog"]]
     ans = core.driver().ask({"op": "sim", "proc": pj, "prog": intended, "impl": impl})
@@ -403,7 +446,7 @@ def evaluate(inp: dict) -> dict:
     }
     props = {}
     for pid in PROPS:
-        props[pid] = {"app": wf, "nontrivial": bool(wf and nt[pid]), "k": bool(ans["k"][pid]), "o": ans["o"][pid]}
+        props[pid] = {"app": wf, "nontrivial": bool(wf and nt[pid]), "k": bool(ans["k"][pid]) and desc_note is None, "o": ans["o"][pid]}
     tags = ["wf" if wf else "illformed", "impl:" + impl["outcome"], "model:" + ans["model"]["outcome"],
             "units:%d" % nunits, "n:%s" % ("0" if not inp["prog"] else "1-4" if len(inp["prog"]) < 5 else "5-12" if len(inp["prog"]) < 13 else "13+")]
     if st.get("D", 0):
@@ -414,9 +457,11 @@ def evaluate(inp: dict) -> dict:
         tags.append("hasMem")
     if inp.get("history"):
         tags.append("reused-HwSpec")
+    if inp.get("desc") is not None:
+        tags.append("judged-against-description")
     if any(n in ODD_NAMES for n in [u["name"] for u in pj["in"] + pj["inout"]] + [f["model"]["name"] for f in pj["out"] + pj["internal"]]):
         tags.append("odd-unit-name")
-    return {"props": props, "tags": tags, "impl": impl, "model": ans["model"], "proc": pj}
+    return {"props": props, "tags": tags, "impl": impl, "model": dict(ans["model"], note=desc_note) if desc_note else ans["model"], "proc": pj}
 
 
 EX_PROCS = 80          # catalogue size of the small-scope exhaustive family (thorough tier)
@@ -502,6 +547,8 @@ def gen_input(case, tier="quick"):
                     long_prog=(family == "large" or rng.random() < 0.03),
                     serial=(family == "deepchain" and rng.random() < 0.85))
     inp = {"proc": proc_json(proc), "prog": intended_prog_json(rng, prog)}
+    if family == "loader":
+        inp["desc"] = LAST_DESC[0]
     if rng.random() < 0.15:
         # the same HwSpec object is used for earlier simulations: the same program, other programs, a run that ends in a
         # stall error (an instruction no input port supports)
